@@ -423,9 +423,9 @@ Lemma keeps_intro nt nt' i e :
   (forall x, mem x (n_main (get nt i)) = true -> mem x (n_main (get nt' i)) = true) -> keeps nt nt' i e.
 Proof. unfold keeps. intros. repeat split; auto. Qed.
 
-Theorem step_keeps e nt i : i < length nt -> keeps nt (nstep nt e) i e.
+Theorem step_keeps0 e nt i : i < length nt -> keeps nt (nstep0 nt e) i e.
 Proof.
-  intros Hi. destruct e as [s b| |j f|j|w k|r k|w k|r k|r k|r k]; cbn [nstep].
+  intros Hi. destruct e as [s b| |j f|j|w k|r k|w k|r k|r k|r k]; cbn [nstep0].
   - (* join *) unfold join.
     set (new := {| n_alive := true; n_server := s; n_boots := b; n_main := []; n_signed := []; n_store := []; n_cache := [] |}).
     assert (L: length (nt ++ [new]) = S (length nt)) by (rewrite app_length; cbn; lia).
@@ -489,37 +489,37 @@ Definition ev_ok (nt : net) (e : nevent) : Prop :=
 Fixpoint hist_ok (nt : net) (evs : list nevent) : Prop :=
   match evs with [] => True | e :: r => ev_ok nt e /\ hist_ok (nstep nt e) r end.
 
-Lemma responds_step e nt i : i < length nt -> e <> ECrash i -> responds (nstep nt e) i = responds nt i.
+Lemma responds_step0 e nt i : i < length nt -> e <> ECrash i -> responds (nstep0 nt e) i = responds nt i.
 Proof.
-  intros Hi Hne. destruct (step_keeps e nt i Hi) as (_ & Fs & _ & [Fa|Fc] & _); [|contradiction].
+  intros Hi Hne. destruct (step_keeps0 e nt i Hi) as (_ & Fs & _ & [Fa|Fc] & _); [|contradiction].
   unfold responds. now rewrite Fa, Fs.
 Qed.
 
-Theorem hub_step nt e : hub_inv nt -> ev_ok nt e -> hub_inv (nstep nt e).
+Theorem hub_step0 nt e : hub_inv nt -> ev_ok nt e -> hub_inv (nstep0 nt e).
 Proof.
   intros [Hl [Hr Hb] Ha Hk] Hok.
   assert (Hne: e <> ECrash 0) by (destruct e; cbn in Hok; congruence).
-  destruct (step_keeps e nt 0 Hl) as (Hlen & _ & Fb0 & _ & Fm0).
-  assert (OLD: forall j, j < length nt -> n_boots (get (nstep nt e) j) = n_boots (get nt j) /\
-                                          n_server (get (nstep nt e) j) = n_server (get nt j) /\
-                                          (forall x, mem x (n_main (get nt j)) = true -> mem x (n_main (get (nstep nt e) j)) = true)).
-  { intros j Hj. destruct (step_keeps e nt j Hj) as (_ & Fs & Fb & _ & Fm). auto. }
+  destruct (step_keeps0 e nt 0 Hl) as (Hlen & _ & Fb0 & _ & Fm0).
+  assert (OLD: forall j, j < length nt -> n_boots (get (nstep0 nt e) j) = n_boots (get nt j) /\
+                                          n_server (get (nstep0 nt e) j) = n_server (get nt j) /\
+                                          (forall x, mem x (n_main (get nt j)) = true -> mem x (n_main (get (nstep0 nt e) j)) = true)).
+  { intros j Hj. destruct (step_keeps0 e nt j Hj) as (_ & Fs & Fb & _ & Fm). auto. }
   (* the nodes that existed before *)
-  assert (ATT: forall j, j < length nt -> n_boots (get (nstep nt e) j) <> [] -> attached (nstep nt e) j).
+  assert (ATT: forall j, j < length nt -> n_boots (get (nstep0 nt e) j) <> [] -> attached (nstep0 nt e) j).
   { intros j Hj Hbj. destruct (OLD j Hj) as (Fb & _ & Fm). rewrite Fb in Hbj. destruct (Ha j Hj Hbj) as [->|H]; [now left|right; auto]. }
-  assert (KN: forall j, 0 < j < length nt -> n_boots (get (nstep nt e) j) <> [] -> n_server (get (nstep nt e) j) = true ->
-                        mem j (n_main (get (nstep nt e) 0)) = true).
+  assert (KN: forall j, 0 < j < length nt -> n_boots (get (nstep0 nt e) j) <> [] -> n_server (get (nstep0 nt e) j) = true ->
+                        mem j (n_main (get (nstep0 nt e) 0)) = true).
   { intros j Hj Hbj Hsj. destruct (OLD j ltac:(lia)) as (Fb & Fs & _). rewrite Fb in Hbj. rewrite Fs in Hsj. apply Fm0. auto. }
-  assert (FIRST: responds (nstep nt e) 0 = true /\ n_boots (get (nstep nt e) 0) = []).
-  { split; [rewrite responds_step; auto|now rewrite Fb0]. }
+  assert (FIRST: responds (nstep0 nt e) 0 = true /\ n_boots (get (nstep0 nt e) 0) = []).
+  { split; [rewrite responds_step0; auto|now rewrite Fb0]. }
   destruct e as [s b| |j f|j|w k|r k|w k|r k|r k|r k].
-  3-10: (match goal with |- hub_inv (nstep ?n ?ev) =>
-           assert (EL: length (nstep n ev) = length n) by
-             (cbn [nstep]; repeat match goal with |- context [if ?c then _ else _] => destruct c end;
+  3-10: (match goal with |- hub_inv (nstep0 ?n ?ev) =>
+           assert (EL: length (nstep0 n ev) = length n) by
+             (cbn [nstep0]; repeat match goal with |- context [if ?c then _ else _] => destruct c end;
               unfold crash; rewrite ?upd_length, ?lookup_length, ?put_length, ?put_s_length, ?lookup_s_length; reflexivity) end;
          constructor; [lia|exact FIRST|intros j0 Hj0; apply ATT; lia|intros j0 Hj0; apply KN; lia]).
   - (* join: one more node *)
-    destruct Hok as [Hv Hboots]. cbn [nstep] in *.
+    destruct Hok as [Hv Hboots]. cbn [nstep0] in *.
     assert (L: length (join nt s b) = S (length nt)).
     { unfold join. destruct b; [|rewrite lookup_length]; rewrite app_length; cbn; lia. }
     constructor; [lia|exact FIRST| |].
@@ -539,13 +539,84 @@ Proof.
                     (length nt) true None (length nt) ltac:(rewrite app_length; cbn; lia)) as (_ & Fs & _ & _).
         rewrite Fs, get_app_new in Hsj. exact Hsj.
   - (* dead address: one more entry, without bootstrap nodes *)
-    cbn [nstep] in *. unfold add_dead in *.
+    cbn [nstep0] in *. unfold add_dead in *.
     constructor; [rewrite app_length; cbn; lia|exact FIRST| |].
     + intros j Hj Hbj. rewrite app_length in Hj. cbn in Hj. destruct (Nat.eq_dec j (length nt)) as [->|Hne']; [|apply ATT; [lia|assumption]].
       exfalso. apply Hbj. now rewrite get_app_new.
     + intros j Hj Hbj Hsj. rewrite app_length in Hj. cbn in Hj. destruct (Nat.eq_dec j (length nt)) as [->|Hne']; [|apply KN; [lia|assumption|assumption]].
       exfalso. apply Hbj. now rewrite get_app_new.
 Qed.
+
+
+(* ---- the retries of nodes with an empty table ---- *)
+Lemma retry_one_length acc i : length (retry_one acc i) = length acc.
+Proof. unfold retry_one. destruct (needs_retry (get acc i)); [apply lookup_length|reflexivity]. Qed.
+
+Lemma retry_fold_id nt l : (forall i, In i l -> needs_retry (get nt i) = false) -> fold_left retry_one l nt = nt.
+Proof.
+  induction l as [|i l IH]; intros H; [reflexivity|]. cbn [fold_left]. unfold retry_one at 2.
+  rewrite (H i (or_introl eq_refl)). apply IH. intros j Hj. apply H. now right.
+Qed.
+
+Lemma hub_no_retry nt : hub_inv nt -> forall i, needs_retry (get nt i) = false.
+Proof.
+  intros [Hl [Hr Hb] Ha Hk] i. unfold needs_retry.
+  destruct (Nat.lt_ge_cases i (length nt)) as [Hi|Hi].
+  - destruct (n_boots (get nt i)) eqn:B; [now rewrite !andb_false_r|].
+    assert (Hne: n_boots (get nt i) <> []) by (rewrite B; discriminate).
+    destruct (Ha i Hi Hne) as [->|H].
+    + rewrite Hb in B. discriminate.
+    + destruct (n_main (get nt i)); [discriminate H|]. now rewrite andb_false_r.
+  - unfold get. rewrite nth_overflow by lia. reflexivity.
+Qed.
+
+Lemma retry_pass_hub nt : hub_inv nt -> retry_pass nt = nt.
+Proof. intros H. unfold retry_pass. apply retry_fold_id. intros i _. now apply hub_no_retry. Qed.
+
+(* what a retry keeps: everything [keeps] speaks about *)
+Definition kept (nt nt' : net) (i : nat) : Prop :=
+  length nt = length nt' /\ n_server (get nt' i) = n_server (get nt i) /\ n_boots (get nt' i) = n_boots (get nt i) /\
+  n_alive (get nt' i) = n_alive (get nt i) /\ (forall x, mem x (n_main (get nt i)) = true -> mem x (n_main (get nt' i)) = true).
+
+Lemma kept_refl nt i : kept nt nt i.
+Proof. unfold kept. repeat split; auto. Qed.
+
+Lemma kept_retry_one acc j i : i < length acc -> kept acc (retry_one acc j) i.
+Proof.
+  intros Hi. unfold retry_one. destruct (needs_retry (get acc j)); [|apply kept_refl].
+  destruct (lookup_keeps_flags acc j true None i Hi) as (Fa & Fs & Fb & _).
+  unfold kept. rewrite lookup_length, Fa, Fs, Fb. repeat split; auto. intros x Hx. now apply lookup_keeps_main.
+Qed.
+
+Lemma kept_fold l : forall acc i, i < length acc -> kept acc (fold_left retry_one l acc) i.
+Proof.
+  induction l as [|j l IH]; intros acc i Hi; [apply kept_refl|]. cbn [fold_left].
+  pose proof (kept_retry_one acc j i Hi) as (L1 & S1 & B1 & A1 & M1).
+  assert (Hi': i < length (retry_one acc j)) by (rewrite retry_one_length; exact Hi).
+  pose proof (IH (retry_one acc j) i Hi') as (L2 & S2 & B2 & A2 & M2).
+  unfold kept. rewrite <- L2, <- L1, S2, S1, B2, B1, A2, A1. repeat split; auto.
+Qed.
+
+Lemma kept_retry_pass nt i : i < length nt -> kept nt (retry_pass nt) i.
+Proof. intros Hi. unfold retry_pass. now apply kept_fold. Qed.
+
+Theorem step_keeps e nt i : i < length nt -> keeps nt (nstep nt e) i e.
+Proof.
+  intros Hi. unfold nstep. destruct (step_keeps0 e nt i Hi) as (L & S & B & A & M).
+  assert (Hi': i < length (nstep0 nt e)) by lia.
+  destruct (kept_retry_pass (nstep0 nt e) i Hi') as (L2 & S2 & B2 & A2 & M2).
+  unfold keeps. rewrite <- L2, S2, B2, A2. repeat split; auto.
+Qed.
+
+Theorem hub_step nt e : hub_inv nt -> ev_ok nt e -> hub_inv (nstep nt e).
+Proof. intros H Hok. unfold nstep. rewrite retry_pass_hub; now apply hub_step0. Qed.
+
+(* along admissible histories from the first node nobody is ever left with an empty table, so the retries never fire *)
+Lemma nstep_hub nt e : hub_inv nt -> ev_ok nt e -> nstep nt e = nstep0 nt e.
+Proof. intros H Hok. unfold nstep. apply retry_pass_hub. now apply hub_step0. Qed.
+
+Lemma responds_step e nt i : hub_inv nt -> ev_ok nt e -> i < length nt -> e <> ECrash i -> responds (nstep nt e) i = responds nt i.
+Proof. intros H Hok Hi Hne. rewrite nstep_hub by assumption. now apply responds_step0. Qed.
 
 Theorem hub_history evs : forall nt, hub_inv nt -> hist_ok nt evs -> hub_inv (fold_left nstep evs nt).
 Proof.
